@@ -21,7 +21,7 @@ def Prep (ev : Ctl.Event τ) (b b1 : Load.Books) : Prop :=
   match ev with
   | .workerready n => b1 = b ∨ (AList.lookup b n = none ∧ b1 = AList.set b n [])
   | .complete n i _ => ∃ book, AList.lookup b n = some book ∧ i ∈ book ∧ b1 = AList.set b n (book.erase i)
-  | .errordown n _ => (AList.lookup b n = none ∧ b1 = b) ∨ (∃ book, AList.lookup b n = some book ∧ b1 = AList.erase b n)
+  | .errordown n _ => b1 = b ∨ (∃ book, AList.lookup b n = some book ∧ b1 = AList.erase b n)
   | .workerfinished n _ _ _ => b1 = b ∨ (∃ book, AList.lookup b n = some book ∧ b1 = AList.erase b n)
   | _ => b1 = b
 
@@ -49,7 +49,7 @@ theorem prep_other {ev : Ctl.Event τ} {b b1 : Load.Books} (h : Prep ev b b1) {j
     obtain ⟨book, _, _, rfl⟩ := h
     exact AList.lookup_set_other _ _ _ _ (fun hh => hj (by rw [hh]; rfl))
   | errordown n rq =>
-    rcases h with ⟨_, rfl⟩ | ⟨book, _, rfl⟩
+    rcases h with rfl | ⟨book, _, rfl⟩
     · rfl
     · exact AList.lookup_erase_other _ _ _ (fun hh => hj (by rw [hh]; rfl))
   | workerfinished n x sf ss =>
